@@ -8,8 +8,11 @@ import (
 	"fmt"
 	"io"
 	"os"
+	"os/exec"
+	"os/signal"
 	"strings"
 	"sync/atomic"
+	"syscall"
 	"time"
 
 	tea "github.com/charmbracelet/bubbletea"
@@ -17,6 +20,12 @@ import (
 
 func init() {
 	scenarios["exec"] = scenExec
+	scenarios["sigexec"] = func(out *scenOut, r *rng, thorough bool) {
+		out.Rule = "signals after an Exec whose terminal restore fails part-way (the command closed the program's input): SIGTERM and SIGINT must end the program; distinct = signal"
+		quietStdio()
+		execRestoreFailsThenSignal(out, syscall.SIGTERM)
+		execRestoreFailsThenSignal(out, syscall.SIGINT)
+	}
 }
 
 type fakeExec struct {
@@ -45,6 +54,23 @@ func scenExec(out *scenOut, r *rng, thorough bool) {
 		execOnce(out, bits, nil, 3, bits == 0, true, "quit", true, 60)
 		execOnce(out, bits, nil, 2, false, false, "quit", false, 20)
 	}
+	// every tracked mode in the state the OPTIONS did not ask for (the command changed it):
+	// what counts at exec time is the current mode, not how the program was started
+	for _, c := range []struct {
+		bits int
+		hist []int
+	}{
+		{8, []int{5}},  // WithoutBracketedPaste, then EnableBracketedPaste
+		{0, []int{6}},  // default (paste on), then DisableBracketedPaste
+		{16, []int{8}}, // WithReportFocus, then DisableReportFocus
+		{0, []int{7}},  // then EnableReportFocus
+		{1, []int{1}},  // WithAltScreen, then ExitAltScreen
+		{0, []int{0}},  // then EnterAltScreen
+		{8 | 16, []int{5, 8, 0}},
+	} {
+		execOnce(out, c.bits, c.hist, 2, false, true, "quit", false, 60)
+	}
+	execNilInput(out)
 	for i := 0; i < n; i++ {
 		bits := r.intn(32)
 		nexec := r.rangeIn(1, 3)
@@ -54,6 +80,143 @@ func scenExec(out *scenOut, r *rng, thorough bool) {
 		}
 		end := []string{"quit", "quit", "kill-during", "panic-cmd-during"}[r.intn(4)]
 		execOnce(out, bits, hist, nexec, r.chance(1, 3), r.chance(3, 4), end, r.chance(1, 2), []int{20, 60, 120}[r.intn(3)])
+	}
+}
+
+func init() {
+	prev := childMain
+	childMain = func(args []string) int {
+		if len(args) > 0 && args[0] == "execnilinput" {
+			return childExecNilInput()
+		}
+		return prev(args)
+	}
+}
+
+// childExecNilInput: a program WITHOUT input (WithInput(nil)) runs a command with Exec, twice;
+// afterwards it must still be running, deliver the callback messages and quit normally.
+func childExecNilInput() int {
+	ctl := newRecCtl()
+	ran := 0
+	fe := func() tea.ExecCommand { return &fakeExec{run: func(f *fakeExec) error { ran++; return nil }} }
+	ctl.onUpdate = func(m tea.Msg, v int) tea.Cmd {
+		if u, ok := m.(userMsg); ok && u.Sender == 9 {
+			return tea.Exec(fe(), func(err error) tea.Msg { return execDoneMsg{Tag: fmt.Sprint(u.Seq), Err: err} })
+		}
+		return nil
+	}
+	run := startProgram(ctl, nil, tea.WithInput(nil), tea.WithoutSignalHandler())
+	run.p.Send(userMsg{9, 0})
+	ok1 := waitFor(3*time.Second, func() bool { return ctl.log.has("update-exit", "execdone:0") })
+	run.p.Send(userMsg{9, 1})
+	ok2 := waitFor(3*time.Second, func() bool { return ctl.log.has("update-exit", "execdone:1") })
+	time.Sleep(50 * time.Millisecond) // anything started by the terminal restore has had its chance
+	run.p.Send(userMsg{0, 7})
+	run.p.Quit()
+	ended := run.wait(3 * time.Second)
+	ups := strings.Join(updatesOf(ctl.log.snapshot()), ",")
+	if ok1 && ok2 && ended && run.err == nil && ran == 2 && strings.Contains(ups, "u0.7") {
+		fmt.Println("EXEC-OK", ups)
+		return 0
+	}
+	fmt.Println("EXEC-BAD", ok1, ok2, ended, run.err, ran, ups)
+	return 1
+}
+
+// execRestoreFailsThenSignal: the command run by Exec closes the program's input, so taking the
+// terminal back fails part-way (the callback delivers that error and the program keeps running).
+// Signals count again once the terminal is no longer released: SIGTERM / SIGINT must end the program.
+func execRestoreFailsThenSignal(out *scenOut, sig syscall.Signal) {
+	guard := make(chan os.Signal, 8)
+	signal.Notify(guard, syscall.SIGINT, syscall.SIGTERM)
+	defer signal.Stop(guard)
+	ctl := newRecCtl()
+	pr, pw, err := os.Pipe()
+	if err != nil {
+		return
+	}
+	defer pw.Close()
+	fe := &fakeExec{run: func(f *fakeExec) error { pr.Close(); return nil }}
+	var cbErr atomic.Value
+	ctl.onUpdate = func(m tea.Msg, v int) tea.Cmd {
+		if u, ok := m.(userMsg); ok && u.Sender == 9 {
+			return tea.Exec(fe, func(err error) tea.Msg {
+				if err != nil {
+					cbErr.Store(err.Error())
+				}
+				return execDoneMsg{Tag: "x", Err: err}
+			})
+		}
+		return nil
+	}
+	run := startProgram(ctl, nil, tea.WithInput(pr))
+	desc := fmt.Sprintf("Exec whose command closes the program's input (the terminal restore fails part-way), then %v", sig)
+	waitFor(2*time.Second, func() bool { return ctl.log.has("view-exit", "") })
+	time.Sleep(30 * time.Millisecond) // the signal handler goroutine has registered
+	run.p.Send(userMsg{9, 0})
+	if !waitFor(3*time.Second, func() bool { return ctl.log.has("update-exit", "execdone:x") }) {
+		out.fail(finding{Property: "C17", Class: "new", What: "the callback message of an Exec was not delivered", Input: desc})
+		run.p.Kill()
+		run.wait(3 * time.Second)
+		return
+	}
+	time.Sleep(10 * time.Millisecond)
+	syscall.Kill(syscall.Getpid(), sig)
+	ended := run.wait(2 * time.Second)
+	out.record("exec-restore-fails/"+sig.String(), desc)
+	if !ended {
+		for _, p := range []string{"C18", "C04"} {
+			out.fail(finding{Property: p, Class: "new", What: "a signal did not end the program although the terminal is no longer released (signals stayed ignored after a failed terminal restore)", Input: desc,
+				Expected: "Run returns", Observed: fmt.Sprintf("still running; restore error delivered to the callback: %v", cbErr.Load())})
+		}
+		run.p.Kill()
+		run.wait(3 * time.Second)
+		return
+	}
+	want := "nil"
+	if sig == syscall.SIGINT {
+		want = "interrupted"
+	}
+	if got := errClass(run.err); got != want {
+		out.fail(finding{Property: "C18", Class: "new", What: "wrong Run result after a signal", Input: desc, Expected: want, Observed: got})
+	}
+}
+
+// execNilInput runs childExecNilInput in a child process (a failure kills the process).
+func execNilInput(out *scenOut) {
+	self, _ := os.Executable()
+	cmd := exec.Command(self, "child", "execnilinput")
+	cmd.Env = os.Environ()
+	var outb strings.Builder
+	cmd.Stdout = &outb
+	cmd.Stderr = &outb
+	if err := cmd.Start(); err != nil {
+		return
+	}
+	done := make(chan error, 1)
+	go func() { done <- cmd.Wait() }()
+	desc := "two consecutive Execs in a program without input (WithInput(nil)), then a message, then quit"
+	select {
+	case err := <-done:
+		out.record("exec-nil-input", desc)
+		if err != nil || !strings.Contains(outb.String(), "EXEC-OK") {
+			tail := outb.String()
+			if i := strings.Index(tail, "panic:"); i >= 0 {
+				tail = tail[i:]
+			}
+			if len(tail) > 500 {
+				tail = tail[:500]
+			}
+			f := finding{Class: "new", What: "after an Exec in a program without input the program crashes / does not take the terminal back (the restore starts an input reader on a nil input)",
+				Input: desc, Expected: "callback messages delivered, program keeps running, quits with nil", Observed: fmt.Sprint(err) + " :: " + strings.ReplaceAll(tail, "\n", " / ")}
+			for _, p := range []string{"C17", "C04", "C05"} {
+				f.Property = p
+				out.fail(f)
+			}
+		}
+	case <-time.After(15 * time.Second):
+		cmd.Process.Kill()
+		out.fail(finding{Property: "C17", Class: "new", What: "a program without input stalls after an Exec", Input: desc})
 	}
 }
 
